@@ -127,3 +127,7 @@ C('C12', 'three compiled modules per generated C source: agreement (C helper fun
 C('C25', 'identity-encoding monitor on real generated modules (each declared name resolves to its own entry: value/size encodes the index) with hostile identifier sets, plus a stand-alone ASan/UBSan harness around search_sorted() of the tree\'s parse_c_type.c compared with a linear scan (libFuzzer on the thorough tier)',
   'Exploration: 60 modules per run (compiled API and out-of-line ABI, include() pairs) with 1-400 names per kind grown by prefix/extension/case/ordering-border mutations; every declared global, typedef, struct/union tag and enum tag is looked up through lib attributes, integer_const, def_extern, typeof in several spellings, and about two undeclared neighbours per name must be rejected; harness: 200 sorted tables, all present names and 10x absent ones, all subsets of size <= 3 of a 30-name universe.',
   'The proof over all identifier sets is out of reach of this technique family (exploration only).')
+
+C('C33', 'three-way differential: set_source()+compile() vs ffi.verify() with the CPython engine vs verify(force_generic_engine=True) on the same generated (cdef, C source) pairs',
+  'Exploration: pairs from the C12 agreement generator; exposed name sets, constants, enumerators with ffi.string, struct size/alignment/offsets, function results and exception classes on in-range, out-of-range and wrongly typed argument tuples, global read/write observed by C getters/setters must be identical across the three builds.',
+  'Only features verify() supports are generated; messages are not compared.')
